@@ -23,6 +23,7 @@ def parseEv (s : String) : Option RdEv :=
     | ["d", b] => (parseBytes b).map .data
     | ["e", b] => (parseBytes b).map .dataEof
     | ["x", b] => (parseBytes b).map .dataErr
+    | ["y", b] => (parseBytes b).map .dataErrOnce
     | _ => none
 
 def parseReader (s : String) : Option Reader :=
